@@ -67,6 +67,10 @@ def _decoded(x, form, n):
     return flat
 
 
+class _Silent(Exception):
+    pass
+
+
 def check_vector(v):
     import bionumpy as bnp
     from bionumpy.encoded_array import change_encoding
@@ -130,6 +134,34 @@ def check_vector(v):
                 o = outcome(again)
             elif op == "retarget":
                 o = outcome(lambda: bnp.as_encoded_array(cur, encs[B]))
+            elif op == "rewrap":
+                def rewrap():
+                    from bionumpy.encoded_array import EncodedArray, EncodedRaggedArray
+                    if isinstance(cur, EncodedRaggedArray):
+                        return EncodedRaggedArray(EncodedArray(cur.ravel(), encs[B]), cur.shape)
+                    return EncodedArray(cur, encs[B])
+                o = outcome(rewrap)
+            elif op == "collect":
+                def collect():
+                    other_text = "".join(encs[B].get_alphabet())
+                    first = cur.ravel()[:len(text)] if hasattr(cur, "lengths") else cur
+                    out = bnp.as_encoded_array([first, bnp.as_encoded_array(other_text, encs[B])])
+                    rows = [[ord(c) for c in r] for r in out.encoding.decode(out).tolist()]
+                    upper_ = [b - 32 if 97 <= b <= 122 else b for b in text]
+                    if rows != [upper_, [ord(c) for c in other_text]]:
+                        raise _Silent(rows)
+                    # both rows kept their letters: present the first row to the common judgement below
+                    return bnp.as_encoded_array("".join(chr(b) for b in upper_), out.encoding) if form in ("str", "base") else \
+                        bnp.as_encoded_array(["".join(chr(b) for b in upper_), chr(upper_[0])], out.encoding)
+                try:
+                    o = ("ok", collect())
+                except _Silent as e:
+                    bad.append({"what": "collecting arrays of two encodings silently yields different letters", "tags": {"op": "collect", "form": form, "from": hist[-2][1], "to": B},
+                                "vector": v, "expected": "the two texts, or an error", "observed": e.args[0]})
+                    st = "raised"
+                    break
+                except Exception as e:
+                    o = ("err", "%s: %s" % (type(e).__name__, e))
             else:
                 o = outcome(lambda: change_encoding(cur, encs[B]))
             if o[0] == "err":
@@ -171,7 +203,7 @@ def run(ctx):
     res = ctx.tlc("MC_C06", spec="SpecAll", constants={"AsBuilt": False, "MaxLen": 2 if quick else 3, "MaxOps": 3},
                   invariants=["TextPreserved", "CodesInRange", "AlphabetsWellFormed", "RoundTrip", "Emit"],
                   postcondition="EmitTables", coverage=True)
-    ctx.require_actions(res, "MC_C06", ["EncodeOp", "Retarget", "Change", "ReverseRows", "ScribbleThenEncodeAgain"])
+    ctx.require_actions(res, "MC_C06", ["EncodeOp", "Retarget", "Change", "ReverseRows", "ScribbleThenEncodeAgain", "Rewrap", "Collect"])
     r = core.run_tlc("MC_C06", ctx.work, tag="MC_C06_asbuilt", spec="Spec", expect_ok=False,
                      constants={"AsBuilt": True, "MaxLen": 1, "MaxOps": 2}, invariants=["TextPreserved"])
     if not any("TextPreserved is violated" in e for e in r.errors):
